@@ -228,8 +228,50 @@ def rule_c(model, rep):
     rep.check(v == "!", R, site(DJ, "django_disabled._hash_prefix"), repr(v), "django unusable-password prefix is '!'")
 
 
+def rule_d(model, rep):
+    """a disabled string is marker + original hash; if an *enabled* scheme's own hashes may start with a marker character the two
+    readings collide: disable() unwraps (eats) the leading character of such a hash, and marker + other-hash can be identified as that scheme"""
+    R = "C18.d-marker-collision"
+    from pv.handlers import HandlerTable
+    from pv.identify import IdentifyModels, Unmodelled
+    from pv.lang import DFA
+    table = HandlerTable(model)
+    im = IdentifyModels(model, table)
+    unit = model.unit(M)
+    chars = model.fold(unit, ast.Name(id="_MARKER_CHARS", ctx=ast.Load()))
+    if not isinstance(chars, str) or not chars:
+        rep.undecided(R, site(M, "_MARKER_CHARS"), "marker characters do not fold")
+        return
+    mk = DFA.prefixes(list(chars))
+    n = 0
+    for h in sorted(table, key=lambda h: h.name):
+        if h.kind == "wrapper" and (table.base_handler(h) is None):
+            continue
+        base = table.base_handler(h) if h.kind == "wrapper" else h
+        if base is not None and base.cref is not None and model.class_const(base.cref, "is_disabled") is True:
+            continue
+        try:
+            L = im.lang(h.name)
+        except Exception as e:  # language not modelled for this handler (custom parser): no claim
+            rep.hold(R, site(h.unit, h.name), f"identify language not modelled ({type(e).__name__}); no claim")
+            continue
+        if L is None or h.name in im.catchall:
+            continue
+        n += 1
+        w = L.intersect(mk).witness()
+        if w is None:
+            rep.hold(R, site(h.unit, h.name), "no hash of this scheme starts with a marker character")
+        else:
+            rep.violation(R, site(h.unit, h.name), f"hashes of `{h.name}` may start with the marker character {w[0]!r} (e.g. {w[:12]!r}...)",
+                          f"an enabled `{h.name}` hash is taken for an already-disabled string by unix_disabled.disable(), which strips its first character; and marker {w[0]!r} + a 40-hex digest is identified as `{h.name}`",
+                          witness=f"ctx = CryptContext(['{h.name}', 'unix_disabled']); h = ctx.hash('pw'); ctx.enable(ctx.disable(h)) != h (the leading {w[0]!r} is lost, the restored account cannot log in)")
+    if n < 50:
+        rep.undecided(R, "<instance-count>", f"only {n} scheme languages examined, expected at least 50")
+
+
 def run(model, rep):
     rep.explanation = __doc__
     rule_a(model, rep)
     rule_b(model, rep)
     rule_c(model, rep)
+    rule_d(model, rep)
